@@ -13,7 +13,10 @@ META = {
             "soft-TPM HMAC key, one TPM context + machine key per machine), a sample on the real KanidmProvider "
             "(unix_user_online_auth_step against a scripted HTTP endpoint answering _unix/_auth, unix_user_offline_auth_init/_step) "
             "and on the real Resolver (pam_account_authenticate over file-backed cache databases); plus seeded random histories of "
-            "10-17 steps. Every observed offline result is judged by the TLA+ property.",
+            "10-17 steps. In addition TLC enumerates all interleavings of two OVERLAPPING PAM conversations (init and step separate, "
+            "each carrying its token snapshot) with provider online/offline switches and server password changes, and every complete "
+            "behaviour is replayed on the real Resolver with pam_account_authenticate_init / _step called separately, a fresh offline "
+            "probe login after every completed conversation. Every observed offline result is judged by the TLA+ property.",
     "note": "2 machines, 3 passwords; the provider's KDF cost is calibrated to 250 ms per operation, so only every 60th (quick) / "
             "200th (thorough) behaviour runs at provider level and every 600th / 4000th at resolver level, all at helper level where "
             "the driver plays the provider's few lines around the helpers with the minimum KDF cost; environment assumption: a "
@@ -26,11 +29,65 @@ META = {
 }
 
 
+def conv_phase(R, wd, quick, replay):
+    """Overlapping PAM conversations (init and step separate) on the real Resolver; returns info for the evidence."""
+    cfg = "KUnixConvMCq" if quick else "KUnixConvMCt"
+    mc = lib.tlc("KUnixConvMC", cfg=cfg, pid=PID, workers=4, timeout=1200)
+    lib.tlc_must_pass(mc, f"{cfg}: two overlapping conversations x online/offline switches x password changes")
+    st = lib.tlc("KUnixConvMC", cfg="KUnixConvMCstale", pid=PID, workers=2, timeout=600)
+    if st["error"]:
+        lib.tool_error(f"KUnixConvMCstale did not run (log {st['log']})")
+    cases = unixlib.cases_from(mc)
+    if not cases:
+        lib.tool_error("no conversation behaviours extracted from the model")
+    obs = f"{wd}/obs-conv.ndjson"
+    if replay:
+        lib.kverif("unix", ["c44", "--out", obs, "--replay", replay], timeout=3000)
+    else:
+        # the model's stale-session witness (needs 3 environment steps) is always replayed as well
+        cases = cases + [json.loads(l) for l in lib.read_lines(f"{lib.ROOT}/notes/witness-C44-stale-session.case.ndjson")]
+        unixlib.write_ndjson(f"{wd}/conv-cases.ndjson", cases)
+        lib.kverif("unix", ["c44", "--out", obs, "--conv-cases", f"{wd}/conv-cases.ndjson", "--threads", 12], timeout=3000)
+    tv = lib.trace_validate("KUnixConvTrace", obs, PID, timeout=1800, tag="KUnixConvTrace")
+    lines = lib.read_lines(obs)
+    recs = [json.loads(l) for l in lines]
+    starts = [i for i, r in enumerate(recs) if r["a"] == "reset"]
+    for t in tv["l1fail"]:
+        ln = t[2]
+        s0 = max(i for i in starts if i < ln)
+        hist = []
+        for r in recs[s0 + 1:ln]:
+            if r["a"] == "toggle":
+                hist.append("online" if r["on"] else "offline")
+            elif r["a"] == "pwchange":
+                hist.append(f"pwchange({r['p']})")
+            elif r["a"] == "cinit":
+                hist.append(f"init({r['c']})={r['mode']}")
+            elif r["a"] == "cstep":
+                hist.append(f"step({r['c']},{r['p']})={r['res']}")
+            elif r["a"] == "probe":
+                hist.append(f"probe({r['p']})={r['res']}")
+        R.violation(f"{t[3]} lvl=conv hist={' '.join(hist)}",
+                    f"real Resolver, overlapping PAM conversations: {' '.join(hist)} ({t[3]})", lines[s0:ln])
+    cnt = {}
+    for r in recs:
+        if r["a"] in ("cinit", "cstep", "probe"):
+            k = f"{r['a']}:{r.get('mode', '-')}:{r['res']}"; cnt[k] = cnt.get(k, 0) + 1
+    return {"states": mc["distinct"], "transitions": mc["generated"], "behaviours": len(starts), "lines": len(lines),
+            "results": cnt, "l2_drift": len(tv["drift"]),
+            "model_stale_open_session_reachable": bool(st["violated"]),
+            "sample": recs[starts[len(starts) // 2]:starts[len(starts) // 2] + 12] if starts else []}
+
+
 def run(tier, replay):
     R = lib.Result(PID, tier, "model_checking")
     wd = lib.workdir(PID)
     lib.build("unix")
     quick = tier == "quick"
+    replay_conv = bool(replay) and '"lvl": "conv"' in open(replay).read().replace('"lvl":"conv"', '"lvl": "conv"')
+    conv = conv_phase(R, wd, quick, replay if replay_conv else None) if (replay_conv or not replay) else None
+    if replay_conv:
+        replay = f"{lib.ROOT}/notes/replay-C44-empty.ndjson"
     mc = lib.tlc("KUnixOfflineMC", cfg="KUnixOfflineMC", pid=PID, workers=4, timeout=900)
     lib.tlc_must_pass(mc, "KUnixOfflineMC: offline cache machine vs property, all reachable states")
     rb = lib.tlc("KUnixOfflineMC", cfg="KUnixOfflineMCrb", pid=PID, workers=2, timeout=900)
@@ -77,15 +134,17 @@ def run(tier, replay):
     for i in starts:
         nb[recs[i]["lvl"]] = nb.get(recs[i]["lvl"], 0) + 1
     R.coverage = {
-        "states": mc["distinct"] + hstates, "transitions": mc["generated"] + htrans,
-        "traces_validated_against_impl": len(starts),
+        "states": mc["distinct"] + hstates + (conv["states"] if conv else 0),
+        "transitions": mc["generated"] + htrans + (conv["transitions"] if conv else 0),
+        "traces_validated_against_impl": len(starts) + (conv["behaviours"] if conv else 0),
         "samples": [recs[starts[len(starts) // 2]:starts[len(starts) // 2] + 6]],
         "exhaustive": False,
         "model_states_exhaustive": mc["distinct"], "model_behaviours_replayed": len(cases) if not replay else 0,
         "behaviours_by_level": nb, "steps_by_level_action_result": lv,
         "model_only": {"rollback_of_own_older_record": "older password accepted again (model counterexample, environment excluded)"
                        if rb["violated"] else "not reproduced in the model"},
-        "l2_drift": len(tv["drift"]),
+        "l2_drift": len(tv["drift"]) + (conv["l2_drift"] if conv else 0),
+        "overlapping_conversations": conv,
         "trace_states": tv["distinct"],
         "rule": "one trace = one history on a fresh user; every offline step is judged by KUnix!OffL1 with bookkeeping derived from "
                 "the observed online results and the driver's record of where each cached record was produced",
